@@ -69,6 +69,7 @@ def check(ctx):
     ctx.rule("R4", "_end always closes (finally); the alias thread always closes /dev/null; ProcProxy.wait closes every handle it opened", floor=4)
     ctx.rule("R5", "pipe ends are closed idempotently: the fd field is cleared under the lock before os.close; wrappers never own the fd; fds 0-2 and sys.std* are never closed", floor=7)
     ctx.rule("R7", "what a command edits in place is its own: the overlay mapping a stage receives is created for that stage (SubprocSpec.run() writes __ALIAS_NAME into it, handlers may add keys) - never an object that outlives the command", floor=1)
+    ctx.rule("R8", "whoever replaced sys.stdout / sys.stderr puts the saved stream back unconditionally: on every path of the restore step (_TeeStd._replace_std, _RedirectStream.__exit__) the saved stream is stored into sys.<name>, unless the path is governed by 'nothing was installed' (`saved is None`) - a restore that first asks who is installed now is skipped whenever two redirections overlap and end out of order, and the session keeps the wrong stream", floor=2)
     ctx.rule("R6", "process-wide state (cwd, sys.std*, terminal foreground group) is changed in xonsh/procs only inside a paired construct; every way out of CommandPipeline.end (explicit raises included) hands the terminal back", floor=3)
 
     # ------------------------------------------------------------------ R1
@@ -393,7 +394,30 @@ def check(ctx):
     from .c10 import _overlay_ownership as _oo
 
     _oo(ctx, ctx.repo.module("xonsh/procs/specs.py"), rule="R7")
+    _stream_restore_unconditional(ctx)
 
+
+
+def _stream_restore_unconditional(ctx):
+    from ..engine import dtable as _dt
+
+    for rel, q in (("xonsh/shells/base_shell.py", "_TeeStd._replace_std"), ("xonsh/tools.py", "_RedirectStream.__exit__")):
+        mod = ctx.repo.module(rel)
+        fn = flat(ctx, mod.func(q), 2)
+        st = f"{rel}:{q}"
+        n_paths = 0
+        for p_ in _dt.paths(fn, loops="skip"):
+            if p_.outcome == "raise" or not _dt.feasible(p_):
+                continue
+            n_paths += 1
+            restored = any(isinstance(c, ast.Call) and ((call_name(c) == "setattr" and c.args and unparse(c.args[0]) == "sys") ) for e in p_.effects for c in ast.walk(e)) or any(isinstance(e, ast.Assign) and any(unparse(t).startswith("sys.std") for t in e.targets) for e in p_.effects)
+            lits = [(unparse(e), pol) for e, pol in _dt.literals(p_)]
+            nothing = any(t.endswith(" is None") and pol for t, pol in lits) or any(t.endswith(" is not None") and not pol for t, pol in lits)
+            ok = restored or nothing
+            if not ok or restored:
+                ctx.ob("R8", st, "a path through the restore step stores the saved stream into sys.<name>" + (" (or nothing was installed)" if not restored else ""), ok, key=f"{q}|restore-skipped|{';'.join(sorted(('' if pol else 'not ') + t for t, pol in lits))[:120]}", where=loc(fn), detail=None if ok else "path taken when: " + "; ".join(("" if pol else "not ") + t for t, pol in lits))
+        if n_paths == 0:
+            raise AnalysisError(f"{st}: no path enumerated")
 
 META = {
     "technique": "static analysis: install/restore set equality over intra-class call-graph reachability, exception-edge must-pass-through, handler-shape checks on the failure branches, sibling closer slot sets, CFG dominance under the lock",
